@@ -41,11 +41,31 @@ def vec(rng, k, n=None):
     return "[" + " ".join(lit(rng, k) for _ in range(n)) + "]"
 
 
+def arity_program(rng, k):
+    """the last instruction in every arity: a matrix literal of r rows (vertical concatenation of 1, 2, 3, 4, n
+    arguments) of c blocks each (horizontal concatenation likewise), cells written as literals or variables"""
+    stmts = []
+    r, c = rng.choice([1, 1, 2, 3, 4, 4, 5, 6]), rng.choice([1, 2, 3, 4, 4, 5])
+    if r == 1 and c == 1:
+        c = 4
+    names = []
+    if rng.random() < 0.5:
+        for nm in ("a", "b"):
+            stmts.append("%s := %s" % (nm, lit(rng, k))); names.append(nm)
+    cell = lambda: rng.choice(names) if names and rng.random() < 0.4 else lit(rng, k)
+    m = "[" + "; ".join(" ".join(cell() for _ in range(c)) for _ in range(r)) + "]"
+    stmts.append(rng.choice(["%s", "z := %s"]) % m)
+    return stmts, False
+
+
 def restricted_program(rng):
     """returns (stmts, has_assign)"""
     k = rng.choice(["f64"] * 6 + INTK + ["f32", "bool", "string", "r64"])
     stmts = []
     has_assign = False
+    form = rng.random()
+    if form < 0.12:
+        return arity_program(rng, k)
     form = rng.random()
     if k == "bool":
         stmts.append("a := %s" % lit(rng, k)); stmts.append("b := %s" % lit(rng, k))
@@ -118,7 +138,7 @@ def flags_of(stmts, has_assign):
         fl.append("assign")
     if IDENT.match(last):
         fl.append("lastref")
-    if re.search(r"\[[^\]]*\d/\d", src):
+    if re.search(r"\[[^\]]*\d/\d", src) or (re.search(r"\d/\d", src) and "[" in src):
         fl.append("r64mat")
     if "|" in src and "." in src and "||" not in src:
         fl.append("table")
